@@ -250,6 +250,13 @@ def skeleton(p, side, assign, stream, swallow, extra):
         if e.kind in ("CATCH", "ENDCATCH") or (e.raised and e.kind != "RAISE"):
             return None
         if e.kind == "LOOPEND" and e["how"] in ("zero", "break"):
+            if e["how"] == "break" and unbounded.get(e["lid"]):
+                # leaving an unbounded loop by `break` (the result returned after the loop) is leaving it by `return`: the exit condition is part of the meaning
+                idx = p.index(e)
+                prev = [x for x in p.events[:idx] if x.kind == "ASSUME" and x.loops and x.loops[-1] == e["lid"]]
+                if prev:
+                    items.append(("EXIT-IF", val(prev[-1]["cond"])))
+                continue
             return None
         if e.under is not None and truth(canon_term(e.under, side, {}, extra), assign) is False:
             continue
